@@ -281,11 +281,13 @@ def concrete_candidates(cells, keys, near):
 # ----------------------------------------------------------------------------------------------------------------------
 
 
-def h_container(arch, key, stublen, encoded, sym_nonce=False, all_keys=False, nonce_pattern=None):
+def h_container(arch, key, stublen, encoded, sym_nonce=False, all_keys=False, nonce_pattern=None, tail_block=False):
     def body(ctx):
         proto = SymBytes([0] + sym_bytes("proto", 1).cells)
         blk = small_block(key, proto.cells, extra=24)
         raw = blk + [0x33] * (PEB.RAW - len(blk))
+        if tail_block:
+            raw = [0x33] * PEB.RAW  # the image itself holds no configuration: the block lies un-encoded BEHIND the XorEncoded stage
         img, lay = PEB.build_image(arch, 64, 1, b"MZRE", b"PE\0\0", [1, 2, 3, 4], [(0x1000, 0x40)], 0, [raw])
         plain = SymBytes(list(img))
         keys = [0x69, 0x2E, 0x00]
@@ -306,6 +308,13 @@ def h_container(arch, key, stublen, encoded, sym_nonce=False, all_keys=False, no
             data = XE.encode(plain, nonce, stub)
         else:
             data = plain
+        if tail_block:
+            # (a memory dump / concatenated carve: detection of the stage succeeds, the decoded view holds no block, the raw view does)
+            off = len(data.cells) + 3
+            data = SymBytes(data.cells + [0x77, 0x78, 0x79] + blk)
+            kind, r = outcome(BeaconConfig.from_file, mkfile(data, False), **kw)
+            check_result(ctx, data.cells, keys, kind, r, all_keys=all_keys, positions=[off + d for d in range(-6, 7) if off + d + 7 <= len(data.cells)], view="raw")
+            return
         kind, r = outcome(BeaconConfig.from_file, mkfile(data, False), **kw)
         pos = [lay["ptrs"][0] + d for d in range(-6, 7)]
         check_result(ctx, plain.cells, keys, kind, r, all_keys=all_keys, positions=[p for p in pos if 0 <= p], view="xorencoded" if encoded else "raw")
@@ -375,6 +384,8 @@ def instances(tier):
                 out.append(Instance("H3 XorEncoded %s key=%02x stub=%d" % (arch, key, st), h_container(arch, key, st, True, sym_nonce=not q and st == 5),
                                     dict(kind="H3", arch=arch, key=key, encoded=True, stub=st, symbolic_nonce=(not q and st == 5), cost=10 ** 7), split=6, max_loop=20000))
     # XorEncoded stage whose block key is only reached by the all-keys retry (the xorencoded flag must survive the retry)
+    out.append(Instance("H3 XorEncoded x86 stage followed by a raw block key=2e", h_container("x86", 0x2E, 5, True, tail_block=True),
+                        dict(kind="H3", arch="x86", key=0x2E, encoded=True, block="raw, behind the stage", cost=10 ** 6), split=8, max_loop=60000, timeout=1400))
     out.append(Instance("H3 XorEncoded x86 key=cc stub=5 all-keys", h_container("x86", 0xCC, 5, True, all_keys=True),
                         dict(kind="H3", arch="x86", key=0xCC, encoded=True, stub=5, keys="all", cost=10 ** 7), split=6, max_loop=20000))
     # stage without an end-of-stub marker whose nonce begins ff ff ff: located through the size field although the marker search hits
